@@ -406,7 +406,10 @@ class XmcdAdapter(Adapter):
         c = self.base_cfg()
         s = dict(settings)
         if "header" not in s:
-            s["header"] = self.new().registers.get_config()["header"]
+            key = ("xmcd_header", self.dev, self.rev, self.sub)
+            if key not in _S:
+                _S[key] = self.new().registers.get_config()["header"]
+            s["header"] = dict(_S[key])
         c["xmcd_settings"] = s
         return c
 
@@ -953,11 +956,14 @@ def _defaults_fuses(m: Model, ad: Adapter, obj, fresh, cfg, o: Oracle, full: boo
             y = ad.load(c2)
             c3 = ad.get_config(y)
             o.check("config_roundtrip", c3 == c2, "dict:" + name, "%s: get_config(load(get_config(x))) differs: %s" % (t, _dict_diff(c2, c3)))
+            o.check("config_roundtrip", _fuse_values(y) == _fuse_values(x), "dict_values:" + name,
+                    "%s: load(get_config(x)) holds other fuse values: %s" % (t, _dict_diff(_fuse_values(x), _fuse_values(y))))
         with o.spsdk("config_roundtrip", "diff:" + name):
             cd = ad.get_config(x, diff=True)
             if cd.get("registers"):
                 y = ad.load(cd)
-                o.check("config_roundtrip", ad.get_config(y) == ad.get_config(x), "diff:" + name, "%s: diff configuration does not reproduce the values" % (t,))
+                o.check("config_roundtrip", _fuse_values(y) == _fuse_values(x), "diff:" + name,
+                        "%s: diff configuration does not reproduce the values: %s" % (t, _dict_diff(_fuse_values(x), _fuse_values(y))))
     if obj is not None and cfg is not None:
         with o.spsdk("readback", "fuse_script"):
             _check_fuse_script(m, obj, {}, o, "template")
@@ -976,21 +982,25 @@ def _dict_diff(a, b, path="") -> str:
 
 
 def _parse_fuse_script(text: str) -> dict:
-    """{otp index: value} from a blhost / nxpele fuse script."""
-    out = {}
+    """{fuse name: (otp index, value)} from a blhost / nxpele fuse script ('# Fuse <name>, index <i> and value: ...' + command)."""
+    out: dict = {}
+    name = None
     for line in text.splitlines():
+        if line.startswith("# Fuse ") and ", index " in line:
+            name = line[len("# Fuse ") : line.rindex(", index ")]
+            continue
         p = line.split()
         if not p or p[0].startswith("#"):
             continue
         if p[0] == "efuse-program-once":
-            out[int(p[1], 0)] = int(p[2], 0)
+            out[name] = (int(p[1], 0), int(p[2], 0))
         elif p[0] == "write-fuse":
-            out[int(p[p.index("--index") + 1], 0)] = int(p[p.index("--data") + 1], 0)
+            out[name] = (int(p[p.index("--index") + 1], 0), int(p[p.index("--data") + 1], 0))
     return out
 
 
 def _check_fuse_script(m: Model, obj, expect: dict, o: Oracle, name: str) -> None:
-    """The fuse script names every configured fuse word by its OTP index; `expect` = {reg name: (mask, value)}."""
+    """The fuse script writes every configured fuse word at its OTP index; `expect` = {reg name: (mask, value)}."""
     script = obj.create_fuse_script()
     words = _parse_fuse_script(script)
     tool = m.rec.get("tool", "blhost")
@@ -1000,22 +1010,27 @@ def _check_fuse_script(m: Model, obj, expect: dict, o: Oracle, name: str) -> Non
             continue
         idx = regspec.to_int(r.raw.get("index_int"), -1)
         mask, val = expect[r.name]
-        if idx not in words:
+        if r.name not in words:
             o.fail("readback", "fuse_script_missing:" + name, "%s: fuse %s (index %d) is configured but not in the script" % (m.t, r.name, idx))
             return
-        if words[idx] & mask != val & mask:
-            o.fail("readback", "fuse_script_value:" + name, "%s: fuse %s index %d: script writes 0x%x, configured bits 0x%x under mask 0x%x" % (m.t, r.name, idx, words[idx], val, mask))
+        if words[r.name][0] != idx:
+            o.fail("readback", "fuse_script_index:" + name, "%s: fuse %s has index %d, the script writes index %d" % (m.t, r.name, idx, words[r.name][0]))
+            return
+        if words[r.name][1] & mask != val & mask:
+            o.fail("readback", "fuse_script_value:" + name, "%s: fuse %s index %d: script writes 0x%x, configured bits 0x%x under mask 0x%x" % (m.t, r.name, idx, words[r.name][1], val, mask))
             return
 
 
 # ====================================================================== step 2: values
+# share of value cases per area: many distinct layouts -> more cases; XMCD (7 small layouts, seconds per load) -> few
+_AREA_WEIGHT = {"pfr": 6, "ifr": 3, "bca": 2, "fcf": 2, "fcb": 3, "xmcd": 1, "tz": 2, "fuses": 3, "memcfg": 4}
 MODES = ("random", "random", "random", "max", "min", "walk1")
 SPELL = ("mixed", "mixed", "int", "hex", "enum")
 
 
 def _values_strategy():
     s = _state()
-    areas = [a for a in AREAS if s["by_area"].get(a)]
+    areas = [a for a in AREAS if s["by_area"].get(a) for _ in range(_AREA_WEIGHT[a])]
 
     @st.composite
     def build(draw):
@@ -1089,11 +1104,21 @@ def run_values(case, o: Oracle) -> None:
     if not cands:
         o.nontrivial(False)
         return
+    base = None
+    if ad.has_binary:
+        with o.spsdk("construct"):
+            base = ad.export(ad.new())
+        if base is None:
+            o.nontrivial(True)
+            return
     k = min(case["k"], len(cands))
     first = case["first"] % len(cands)
     chosen = [cands[(first + i) % len(cands)] for i in range(k)]
+    if area == "pfr":
+        # a PFR page is consistent only when every register with a computed field went through the configuration
+        chosen += [r for r in cands if not isinstance(r, Group) and m.computed_bf(r) and r not in chosen]
     settings: dict = {}
-    expect: list = []  # (reg, bit offset, width, value) in binary terms
+    expect: list = []  # (reg, bit offset, width, value, bit-field or None) in binary terms
     group_expect: list = []  # (group, nbytes, bytes or None, int value)
     forms = set()
     explicit = case.get("explicit")
@@ -1101,7 +1126,9 @@ def run_values(case, o: Oracle) -> None:
         if isinstance(r, Group):
             _assign_group(m, r, rnd, case, settings, group_expect, forms)
             continue
-        named = [b for b in r.named_bitfields() if b.writable and not m.owned(r, b) and b.width > 0]
+        eff = [b.name if b.name is not None else "HIDDEN_BITFIELD_%03X" % b.offset for b in r.bitfields]
+        unique = [b for b, n in zip(r.bitfields, eff) if eff.count(n) == 1 and b.width > 0]  # addressable in a configuration
+        named = [b for b in unique if b.name is not None and b.writable and not m.owned(r, b)]
         has_computed = bool(m.computed_bf(r))
         whole_ok = not has_computed and not any(m.owned(r, b) for b in r.bitfields) and all(b.writable for b in r.named_bitfields()) \
             and not any(b.shift for b in r.bitfields)
@@ -1109,17 +1136,27 @@ def run_values(case, o: Oracle) -> None:
             d = {}
             for b in named:
                 v = _draw_value(rnd, b.width, case["mode"])
-                cfg_v = v << b.shift
-                text, form = _spell(rnd, cfg_v, b.width, case["spell"], b.enums, b.shift)
+                text, form = _spell(rnd, v << b.shift, b.width, case["spell"], b.enums, b.shift)
                 d[b.name] = text
                 forms.add(form)
                 expect.append((r, b.offset, b.width, v, b))
-            if list(d) != list(dict.fromkeys(d)) or len(d) != len(named):
-                continue  # duplicate bit-field names inside one register: cannot be addressed individually
+                if form != "enum_name" and [n for n, val in b.enums if val == v and [x for x, _ in b.enums].count(n) > 1]:
+                    o.label("enum:duplicate_name_value")  # the value's enumeration name also names another value
             settings[r.name] = d
             forms.add("bitfields")
         elif not r.bitfields or whole_ok:
             v = _draw_value(rnd, r.width, case["mode"])
+            if r.bitfields:
+                # bits outside every individually addressable bit-field keep their default (the configuration cannot express them)
+                mask = 0
+                for b in unique:
+                    mask |= b.mask << b.offset
+                dflt = regspec.reg_int(base, r.offset, r.nbytes) if base is not None and r.offset + r.nbytes <= len(base) else r.reset
+                v = (v & mask) | (dflt & ~mask & ((1 << r.width) - 1))
+                for b in unique:
+                    fv = (v >> b.offset) & b.mask
+                    if [n for n, val in b.enums if val == fv and [x for x, _ in b.enums].count(n) > 1]:
+                        o.label("enum:duplicate_name_value")
             text, form = _spell(rnd, v, r.width, case["spell"] if case["spell"] != "enum" else "mixed")
             if rnd.randrange(5) == 0:
                 text = {"value": text}  # the older, still documented {value: ...} form
@@ -1140,16 +1177,14 @@ def run_values(case, o: Oracle) -> None:
     cfg = ad.cfg_with(settings)
 
     if not ad.has_binary:
-        _values_fuses(m, ad, cfg, settings, expect, o, explicit is not None)
+        _values_fuses(m, ad, cfg, settings, expect, o, explicit is not None, case["seed"] % 4 == 0)
         return
 
     # ------------------------------------------------ load, export
-    base = obj = data = None
-    with o.spsdk("construct"):
-        base = ad.export(ad.new())
+    obj = data = None
     with o.spsdk("load_values"):
         obj = ad.load(cfg)
-    if obj is None or base is None:
+    if obj is None:
         o.nontrivial(True)
         return
     with o.spsdk("export", "values"):
@@ -1233,7 +1268,8 @@ def run_values(case, o: Oracle) -> None:
             o.check("export_size", parsed.header.xmcd_size == len(data), "xmcd_header_size:values", "%s: header says %d bytes, binary has %d" % (t, parsed.header.xmcd_size, len(data)))
     if area == "memcfg":
         _memcfg_words(m, parsed, data, o, "values")
-    _config_roundtrips(m, ad, parsed, data, o, "values")
+    deep = area not in ("xmcd", "fcb") or case["seed"] % 4 == 0  # the YAML text form of the two expensive areas: every 4th case
+    _config_roundtrips(m, ad, parsed, data, o, "values", deep)
     # ------------------------------------------------ (f) read back from the configuration of the parsed binary
     if explicit is None and m.clean:
         with o.spsdk("readback", "config"):
@@ -1359,7 +1395,16 @@ def _values_tz(m: Model, ad: Adapter, case, rnd: random.Random, o: Oracle) -> No
         o.check("readback", got == {n: v & 0xFFFFFFFF for n, v in want.items()}, "tz_config", "%s: parsed presets differ from the written ones" % (t,))
 
 
-def _values_fuses(m: Model, ad: Adapter, cfg: dict, settings: dict, expect: list, o: Oracle, explicit: bool) -> None:
+def _fuse_values(obj) -> dict:
+    out = {}
+    for r in obj.fuse_regs:
+        out[r.name] = r.get_value(raw=True)
+        for s in r.sub_regs:
+            out[s.name] = s.get_value(raw=True)
+    return out
+
+
+def _values_fuses(m: Model, ad: Adapter, cfg: dict, settings: dict, expect: list, o: Oracle, explicit: bool, deep: bool = True) -> None:
     t = m.t
     obj = None
     with o.spsdk("load_values"):
@@ -1371,13 +1416,18 @@ def _values_fuses(m: Model, ad: Adapter, cfg: dict, settings: dict, expect: list
     o.label("nondefault")
     with o.spsdk("config_roundtrip", "dict:values"):
         c2 = ad.get_config(obj)
-        c3 = ad.get_config(ad.load(c2))
+        y = ad.load(c2)
+        c3 = ad.get_config(y)
         o.check("config_roundtrip", c3 == c2, "dict:values", "%s: get_config(load(get_config(x))) differs: %s" % (t, _dict_diff(c2, c3)))
-    with o.spsdk("config_roundtrip", "diff:values"):
-        cd = ad.get_config(obj, diff=True)
-        if cd.get("registers"):
-            c4 = ad.get_config(ad.load(cd))
-            o.check("config_roundtrip", c4 == c2, "diff:values", "%s: diff configuration does not reproduce the values: %s" % (t, _dict_diff(c2, c4)))
+        o.check("config_roundtrip", _fuse_values(y) == _fuse_values(obj), "dict_values:values",
+                "%s: load(get_config(x)) holds other fuse values: %s" % (t, _dict_diff(_fuse_values(obj), _fuse_values(y))))
+    if deep:
+        with o.spsdk("config_roundtrip", "diff:values"):
+            cd = ad.get_config(obj, diff=True)
+            if cd.get("registers"):
+                y = ad.load(cd)
+                o.check("config_roundtrip", _fuse_values(y) == _fuse_values(obj), "diff:values",
+                        "%s: diff configuration does not reproduce the values: %s" % (t, _dict_diff(_fuse_values(obj), _fuse_values(y))))
     if explicit:
         return
     per_reg: dict = {}
@@ -1426,7 +1476,7 @@ def parts(ctx):
             get_schema_file(f)
     except Exception:  # noqa: BLE001 - a broken tree shows up as failures of the cases, not here
         pass
-    n_quick = 1400
+    n_quick = 900
     return [
         EnumPart("defaults", _tuples_count, _tuples_item, run_defaults),
         HypPart("values", _values_strategy, run_values, {"quick": n_quick, "thorough": 60000}),
